@@ -68,7 +68,14 @@ def translate(repo=None):
     try:
         k = read_constants(repo)
     except (OSError, ValueError) as e:
-        return False, str(e)
+        # the block size is not written at the `new char[...]` (e.g. a helper `allocItems(count)`): take the value the
+        # translator finds at the allocation of the private insert
+        try:
+            gen_avl.BLOCK_SIZES.clear()
+            gen_avl.generate(repo or C.REPO, GEN_ROT)
+            k = {tag: gen_avl.BLOCK_SIZES[str(Path(repo or C.REPO) / rel)] for tag, rel in HEADERS.items()}
+        except (gen_avl.Refuse, KeyError) as e2:
+            return False, f"{e}; {e2}"
     text = ("/- generated by tools/areas/avl.py (translate) from include/nstd/{Map,MultiMap}.hpp - do not edit -/\n"
             "namespace Nstd.Generated.Avl\n\n"
             "/-- `new char[sizeof(ItemBlock) + sizeof(Item) * N]` and `end = i + N` in `Map::insert` -/\n"
@@ -105,7 +112,10 @@ def ipb_flags():
     try:
         k = read_constants()
     except (OSError, ValueError):
-        return []
+        try:
+            k = {tag: gen_avl.BLOCK_SIZES[str(Path(C.REPO) / rel)] for tag, rel in HEADERS.items()}
+        except KeyError:
+            return []
     return [f"-DAVL_IPB_MAP={k['Map']}", f"-DAVL_IPB_MULTI={k['Multi']}"]
 
 
@@ -380,7 +390,7 @@ def _tok_eq(i, r):
     if i == r:
         return True
     if r == "c=*":
-        return re.fullmatch(r"c=\d+", i) is not None
+        return re.fullmatch(r"c=(\d+|-)", i) is not None
     if r.startswith("c<="):
         m = re.fullmatch(r"c=(\d+)", i)
         return m is not None and int(m.group(1)) <= int(r[3:])
